@@ -24,6 +24,8 @@ def tasks(tier):
         if kind == "A":  # one call with (send)->(raise) | raise, then an action-free follow-up (thorough: two)
             p.update(calls=2 if quick else 3, call_budgets=[2, 0, 0], policy="send-then-raise", actions=["send", "raise"],
                      follow=["go"] if quick else ["go", "hop", "tick"])
+        elif kind == "X":  # the failure is a BaseException (cancellation): no queued events involved; the machine must stay usable
+            p.update(calls=2, call_budgets=[1, 0], policy=None, actions=["raise"], follow=["go"], base_exception=True)
         elif kind == "U":  # a nested send of a name the class does not declare (must be queued and refused when its turn comes)
             p.update(calls=2, call_budgets=[1, 0], policy=None, actions=["send"], follow=["go"], send_events=["nope"])
         elif kind == "C":  # two nested sends from the first event's own callbacks (a queued event may be refused with others behind it)
@@ -49,13 +51,15 @@ def tasks(tier):
             hist("C", "sync", True, 0, first)
             if first == 0:
                 hist("C", "async", True, 0, first)
+                hist("X", "sync", True, 0, first)
+                hist("X", "async", True, 0, first)
                 hist("U", "sync", True, 0, first)
                 hist("U", "sync", False, 1, first)
                 hist("U", "async", True, 2, first)
                 hist("A", "sync", True, 1, first, allow=True)  # from b: a nested `hop` is valid only in the target state c
         else:
             for s0 in range(4):
-                for kind in "ABCU":
+                for kind in "ABCUX":
                     hist(kind, "async", True, s0, first)
                     hist(kind, "sync", True, s0, first)
                     hist(kind, "sync", False, s0, first)
@@ -70,12 +74,12 @@ BUDGET = {
 BOUNDS = {
     "quick": "T-chain template. Scenario A: first call (event fixed per task) with either a raise, or a nested send {go,hop} optionally "
     "followed by a raise, each placed at any callback invocation (validator, guards, the 5 generic action callbacks; first, nested or queued "
-    "transition; initial enter callback in the from-construction scenario), then an action-free follow-up call (go). Scenario C: two nested sends {go,hop} from the first event's own callbacks, then a follow-up. Scenario U: one nested send of an undeclared event name. Scenario B: two "
+    "transition; initial enter callback in the from-construction scenario), then an action-free follow-up call (go). Scenario C: two nested sends {go,hop} from the first event's own callbacks, then a follow-up. Scenario X: a BaseException (cancellation-like) raised at any invocation, then a follow-up. Scenario U: one nested send of an undeclared event name. Scenario B: two "
     "consecutive calls that may each raise at any invocation, then an action-free call. Engines sync rtc (all pre-states, also "
     "allow_event_without_transition), sync non-rtc (pre-states a, c), all-async (pre-state a; construction).",
     "thorough": "two follow-up calls, follow-up events {go,hop,tick}, a listener adding 3 more callbacks per transition, all pre-states on every engine.",
 }
-OUTSIDE = "BaseException subclasses such as KeyboardInterrupt (the engine deliberately handles Exception only); more than 3 faults/sends per history; callbacks abandoned by a failed asyncio.gather may finish later (tolerated, see DESIGN 3.2 tolerance 3)"
+OUTSIDE = "what happens to *queued* events when the failure is a BaseException (the engine deliberately clears the queue for Exception only; scenario X raises one without anything queued and only requires propagation, the state rule and a usable machine); more than 3 faults/sends per history; callbacks abandoned by a failed asyncio.gather may finish later (tolerated, see DESIGN 3.2 tolerance 3)"
 OBLIGATIONS = ["failed-call:Boom", "failed-call:TNA", "call-after-failure", "nested-send", "queued-event-ran", "from-construction"]
 ASSUMPTIONS = [
     "state after a failure: source for faults in validators/conditions/before/exit/on, target for enter/after (the acceptor tracks the phase of the observed raise)",
@@ -105,4 +109,6 @@ def run(ctx, params):
     p["events"] = EVENTS
     if params.get("top_only"):
         p["where_top_only"] = True
+    if params.get("base_exception"):
+        p["base_exception"] = True
     return run_history(_Ctx(), p, script_kw, PROPERTY, "C04M")
